@@ -61,6 +61,9 @@ CHECKS = {
  "C06": ("exploration", "exhaustive product of signature-opcode scenarios with real ECDSA signatures (lock forms x key encodings x 17 hash types x 9 signature kinds x all 64 signature-flag subsets x both eras; every m-of-n<=3 with every tuple over the slot alphabet), each executed in lockstep against the reference CHECKSIG/CHECKMULTISIG model",
          "Every scenario is executed by the real interpreter and by the reference; the verdict and the stack after every instruction must agree. Signatures are produced from the reference digests so that 'valid' means valid under the node's rules for the flags in force.",
          "Reference sig-op model written after the node's interpreter.cpp as the author knows it, certified on the signature vectors of script_tests.json; SIGHASH_FORKID implies STRICTENC as the library documents. Known finding: FORKID-bit signatures verified without the FORKID flag use the FORKID digest (cannot be fixed: a repository example relies on it).", "DESIGN.md §4 C06"),
+ "C18": ("model_checking", "stateless schedule exploration of the real fees.go and Engine.Execute under a hand-written cooperative scheduler (instrumented from the working tree at check time), DFS over choice prefixes with iterative preemption bound then unbounded, vector-clock happens-before race monitor, deadlock detection and a brute-force linearizability oracle",
+         "Every interleaving (at lock-operation granularity, with writer preference modelled) of every 2- and 3-thread scenario over the FeeQuote/FeeQuotes operation alphabet is executed on the real code; each schedule is checked for unordered conflicting accesses to guarded fields, deadlock, panics and linearizability against a plain-map model; Execute on a shared engine is checked for shared-state accesses and for verdicts equal to sequential ones. Schedules are replayable and every finding is re-executed before it is reported.",
+         "Scheduling points only at lock operations and thread start/end (sufficient given the race monitor covers unsynchronised accesses); memory-model effects below that are covered only by the supplementary free-running -race pass in the thorough tier; instrumentation is syntactic (fields of mutex-holding structs, engine fields, package-level variable writes).", "DESIGN.md §4 C18"),
 }
 
 PENDING_REASON = "check not built yet in this round (planned, see DESIGN.md §4); not claimed until its exhaustive check exists and is quiet on the unchanged tree"
@@ -77,7 +80,7 @@ def main():
             "quick_cmd": f"./check.sh {i} quick",
             "thorough_cmd": f"./check.sh {i} thorough",
             "evidence_file": f"/verif/evidence/{i}.json",
-            "replay_cmd_template": "./bin/vcheck replay {path}",
+            "replay_cmd_template": ("./c18.sh replay {path}" if i == "C18" else "./bin/vcheck replay {path}"),
             "engine": "vcheck",
             "level_claimed": {"category": level, "text": text, "design_ref": ref},
             "level_note": note,
